@@ -152,7 +152,7 @@ def strategy(tier):
                                   families=["grid", "grid", "float", "chain", "oneway", "twocomp"]))
         metric = draw(st.sampled_from(["planar", "planar", "planar", "latlon"]))
         t = draw(gen.trace_on(g, max_len=sz["max_len"], min_len=1))
-        cfg = draw(gen.config(families=("simple", "distance")))
+        cfg = draw(gen.config(families=("simple", "distance", "nk")))
         cfg["max_dist_init"] = 1e9 if cfg.get("max_dist") else None
         ys = sorted({n[1][0] for n in g})
         xs = sorted({n[1][1] for n in g})
